@@ -1,0 +1,44 @@
+"""Verification hooks (off unless the environment variable TORNADO_VERIF=1).
+
+When enabled, a few identity-hashed ``set`` attributes are replaced by
+insertion-ordered sets so that their iteration order is a reproducible
+function of the program's history instead of heap addresses.  A simulator
+may install ``OrderedSet.permute`` to choose another (equally legal)
+iteration order.  With the guard off nothing in Tornado changes.
+"""
+
+import os
+from collections.abc import Callable, Iterator, MutableSet
+from typing import Any
+
+ENABLED = os.environ.get("TORNADO_VERIF") == "1"
+
+
+class OrderedSet(MutableSet):
+    # Optional hook: takes the insertion-ordered list, returns the order to
+    # iterate in (must be a permutation of it).
+    permute: Callable[[list], list] | None = None
+
+    def __init__(self) -> None:
+        self._d: dict[Any, None] = {}
+
+    def __contains__(self, x: object) -> bool:
+        return x in self._d
+
+    def __iter__(self) -> Iterator:
+        items = list(self._d)
+        if OrderedSet.permute is not None:
+            items = OrderedSet.permute(items)
+        return iter(items)
+
+    def __len__(self) -> int:
+        return len(self._d)
+
+    def add(self, x: Any) -> None:
+        self._d[x] = None
+
+    def discard(self, x: Any) -> None:
+        self._d.pop(x, None)
+
+    def remove(self, x: Any) -> None:
+        del self._d[x]
